@@ -3,7 +3,7 @@ import itertools
 
 from hypothesis import strategies as st
 
-from harness import core, specs, gen, common
+from harness import core, specs, gen, common, classes, qspec  # noqa: F401
 from harness.core import Facet, Violation, require
 
 RULE = ("(diagram, i, j, left) drawn by the scanning generator over monoidal/"
@@ -175,6 +175,23 @@ def check_single(case):
 
 
 @st.composite
+def subclass_cases(draw, tier):
+    """ The same requests on the diagram classes built on monoidal diagrams
+    (tensor, circuit, zx), scalar boxes included. """
+    cls = draw(st.sampled_from(["tensor", "circuit", "zx"]))
+    spec = draw(gen.diagrams(cls, max_boxes=6, max_width=4, min_boxes=2))
+    n = len(spec["layers"])
+    return {"d": spec, "i": draw(st.integers(0, n - 1)),
+            "j": draw(st.integers(0, n - 1)), "left": draw(st.booleans())}
+
+
+def check_subclass(case):
+    info = check_move(case["d"], case["i"], case["j"], case["left"], None)
+    info["labels"] = [case["d"]["cls"]] + list(info.get("labels", ()))
+    return info
+
+
+@st.composite
 def composite_cases(draw, tier):
     cls = draw(st.sampled_from(["monoidal", "rigid"]))
     spec = draw(gen.diagrams(cls, max_boxes=6, max_width=4, min_boxes=2,
@@ -321,6 +338,10 @@ def selftest_model():
 
 
 core.register("C05", [
+    Facet("subclasses", subclass_cases, check_subclass, n_quick=1500,
+          shards_quick=4, rule="single and multi-step moves in tensor, "
+          "circuit and zx diagrams (with scalar boxes): same oracle, no "
+          "functor"),
     Facet("composite_boxes", composite_cases, check_composite, n_quick=600,
           shards_quick=2, rule="adjacent moves on foliations (boxes that are "
           "diagrams): refused with InterchangerError exactly when the slices "
